@@ -262,3 +262,43 @@ def gen_k3_late(rng, n):
         out.append([3, kb, first, data, ops])
         meta.append({"mode": "late-targeted" if targeted else "late-random", "hidden": None, "nobj": len(kb), "kinds": sorted(set(o[0] for o in kb))})
     return out, meta
+
+
+def gen_chain(rng):
+    """a chain of rules a0 - a1 - ... - ak (Implies in either direction, Iff, Or(Not a, b)), every rule asserted TRUE, one
+    classical fact at an end (sometimes also inside): information has to travel through several passes and the order of the
+    roots decides how many. Returns (kb, roots, data)."""
+    k = rng.choice([2, 3, 3, 4])
+    kb = [[0, [], [F(1), F(1), [], 1], []] for _ in range(k + 1)]
+    roots, data = [], []
+    unit = [F(1), F(1), [F(1), F(1)], 1]
+    for i in range(k):
+        a, b = i, i + 1
+        kind = rng.choice(["imp", "imp", "rimp", "iff", "iff", "or"])
+        if kind == "imp":
+            kb.append([4, [a, b], list(unit), []])
+        elif kind == "rimp":
+            kb.append([4, [b, a], list(unit), []])
+        elif kind == "or":
+            kb.append([1, [a], [F(1), F(1), [], 1], []])
+            kb.append([3, [len(kb) - 1, b], list(unit), []])
+        else:
+            if rng.random() < 0.5:
+                a, b = b, a
+            i1 = len(kb)
+            kb.append([4, [a, b], list(unit), []])
+            kb.append([4, [b, a], list(unit), []])
+            kb.append([5, [i1, i1 + 1], list(unit), []])
+        roots.append(len(kb) - 1)
+        data.append([len(kb) - 1, [F(1), F(1)]])
+    rng.shuffle(roots)
+    end = rng.choice([0, k])
+    data.append([end, rng.choice([[F(1), F(1)], [F(0), F(0)]])])
+    if rng.random() < 0.3:
+        data.append([rng.randrange(k + 1), rng.choice([[F(1), F(1)], [F(0), F(0)], [F(1, 2), F(1)]])])
+    seen, dd = set(), []
+    for i, b in reversed(data):
+        if i not in seen:
+            seen.add(i)
+            dd.append([i, b])
+    return kb, roots, list(reversed(dd))
